@@ -19,7 +19,10 @@ func verifHarnessC11Refresh() {
 	hadHandle := snapshot(s.active.f)
 	now := verifNowSec
 
-	err := s.Refresh(verifBackground())
+	rctx := &verifCtx{tag: "refresh"}
+	client.mayCancel = rctx // the caller may give up between two requests of the poll
+
+	err := s.Refresh(rctx)
 
 	assert("inv", verifStoreInv(s))
 	assert("lock-released", notHeld(&s.active))
@@ -29,7 +32,7 @@ func verifHarnessC11Refresh() {
 	}
 	failed := ghostCount("svc.failed") > 0
 	if err != nil {
-		assert("error-only-from-failed-request-or-cache", or(failed, ghostCount("cache.write.call") > ghostCount("cache.write")))
+		assert("error-only-from-failed-request-or-cache-or-own-cancellation", or(failed, ghostCount("cache.write.call") > ghostCount("cache.write"), rctx.cancelled))
 	}
 	if failed {
 		assert("failed-poll-reports-error", err != nil)
